@@ -596,7 +596,21 @@ class ImageLayerState(BaseImageLayerState, StretchStateMixin):
     def _get_image(self, view=None):
         return self.layer[self.attribute, view]
 
+    @property
+    def viewer_state(self):
+        return self._viewer_state
+
+    @viewer_state.setter
+    def viewer_state(self, value):
+        self._viewer_state = value
+        # A layer state restored from a session file is only given its viewer
+        # state after it has been set up, so we apply the setting then.
+        if value is not None and not self.stretch_global:
+            self._set_global_stretch(False)
+
     def _set_global_stretch(self, stretch_global=True):
+        if self.viewer_state is None:
+            return
         if stretch_global:
             self.viewer_state.remove_callback('slices', self._update_slice_subset)
             self.attribute_lim_helper.set_slice(None)
